@@ -436,17 +436,190 @@ fn distinct_subterms(a: &RAst, out: &mut HashSet<RAst>) {
     }
 }
 
+/// The construct a node stands for, without its operands: what a label has to identify.
+fn signature(a: &RAst) -> String {
+    match a {
+        RAst::True => "true".into(),
+        RAst::False => "false".into(),
+        RAst::Var(n) => format!("var:{}", n),
+        RAst::Ref(n) => format!("ref:{}", n),
+        RAst::Not(_) => "not".into(),
+        RAst::Quant(ex, names, _) => format!("quant:{}:{}", ex, names.join(",")),
+        RAst::CountConst(op, _, n) => format!("cc:{:?}:{}", op, n),
+        RAst::CountList(op, ..) => format!("cl:{:?}", op),
+        RAst::Fix(n, g, _) => format!("fix:{}:{}", g, n),
+        RAst::Ite(..) => "ite".into(),
+        RAst::Bin(op, ..) => format!("bin:{:?}", op),
+    }
+}
+
+/// spellings by which a label may mention its construct: the Debug names of the current export
+/// and the aliases of the formula language (README)
+fn spellings(a: &RAst) -> Vec<&'static str> {
+    match a {
+        RAst::True => vec!["true"],
+        RAst::False => vec!["false"],
+        RAst::Var(_) | RAst::Ref(_) => vec![],
+        RAst::Not(_) => vec!["not", "!", "-", "\u{ac}"],
+        RAst::Quant(true, ..) => vec!["exists", "any", "\u{2203}"],
+        RAst::Quant(false, ..) => vec!["forall", "all", "\u{2200}"],
+        RAst::CountConst(op, ..) | RAst::CountList(op, ..) => match op {
+            CntOp::AtMost => vec!["atmost", "<=", "\u{2264}"],
+            CntOp::LessThan => vec!["lessthan", "<"],
+            CntOp::AtLeast => vec!["atleast", ">=", "\u{2265}"],
+            CntOp::MoreThan => vec!["morethan", ">"],
+            CntOp::Exactly => vec!["exactly", "="],
+        },
+        RAst::Fix(_, true, _) => vec!["gfp", "nu", "\u{3bd}"],
+        RAst::Fix(_, false, _) => vec!["lfp", "mu", "\u{3bc}"],
+        RAst::Ite(..) => vec!["ite", "if"],
+        RAst::Bin(op, ..) => match op {
+            BinOp::And => vec!["and", "&", "*", "\u{2227}"],
+            BinOp::Or => vec!["or", "|", "+", "\u{2228}"],
+            BinOp::Xor => vec!["xor", "^", "\u{2295}"],
+            BinOp::Nor => vec!["nor"],
+            BinOp::Nand => vec!["nand"],
+            BinOp::Implies => vec!["implies", "=>", "in", "\u{2192}", "\u{21d2}"],
+            BinOp::ImpliesInv => vec!["impliesinv", "<=", "\u{2190}", "\u{21d0}"],
+            BinOp::Iff => vec!["iff", "<=>", "eq", "\u{2194}", "\u{21d4}"],
+        },
+    }
+}
+
+thread_local! {
+    /// label <-> construct seen so far on this worker (an unknown vocabulary must be used consistently)
+    static VOCAB: std::cell::RefCell<(HashMap<String, String>, HashMap<String, String>)> = std::cell::RefCell::new((HashMap::new(), HashMap::new()));
+}
+
+/// Vocabulary-independent reading of an exported parse tree: walk the export and the reference
+/// term together. The shape (operand edges by their position labels), the sharing and the payload
+/// (names, numbers) must agree; the labels themselves are free as long as label <-> construct is
+/// one-to-one and each label mentions a spelling of its construct.
+fn structural_match(
+    g: &Graph,
+    labels: &HashMap<String, String>,
+    id: &str,
+    a: &RAst,
+    seen: &mut HashMap<String, RAst>,
+    depth: usize,
+) -> Result<(), String> {
+    if depth > 5000 {
+        return Err("cycle in the exported parse tree".into());
+    }
+    if let Some(prev) = seen.get(id) {
+        return if prev == a {
+            Ok(())
+        } else {
+            Err(format!("node {} stands for two different sub-terms", id))
+        };
+    }
+    seen.insert(id.to_string(), a.clone());
+    let label = labels.get(id).ok_or_else(|| format!("undeclared node {}", id))?;
+    let sig = signature(a);
+    let conflict = VOCAB.with(|v| {
+        let mut v = v.borrow_mut();
+        if let Some(s) = v.0.get(label) {
+            if *s != sig {
+                return Some(format!("label {:?} is used for two different constructs ({} and {})", label, s, sig));
+            }
+        }
+        if let Some(l) = v.1.get(&sig) {
+            if l != label {
+                return Some(format!("construct {} is labelled {:?} here and {:?} elsewhere", sig, label, l));
+            }
+        }
+        v.0.insert(label.clone(), sig.clone());
+        v.1.insert(sig.clone(), label.clone());
+        None
+    });
+    if let Some(c) = conflict {
+        return Err(c);
+    }
+    let low = label.to_lowercase();
+    let sp = spellings(a);
+    if !sp.is_empty() && !sp.iter().any(|x| low.contains(x)) {
+        return Err(format!("label {:?} does not mention its construct ({})", label, sig));
+    }
+    let payload: Vec<String> = match a {
+        RAst::Var(n) | RAst::Ref(n) | RAst::Fix(n, ..) => vec![n.clone()],
+        RAst::Quant(_, names, _) => names.clone(),
+        RAst::CountConst(_, _, n) => vec![n.to_string()],
+        _ => vec![],
+    };
+    for x in &payload {
+        if !label.contains(x.as_str()) {
+            return Err(format!("label {:?} does not carry {:?}", label, x));
+        }
+    }
+    let outs = g.out_edges(id);
+    let expect_out = |n: usize| -> Result<(), String> {
+        if outs.len() == n {
+            Ok(())
+        } else {
+            Err(format!("node {} ({}) has {} outgoing edges, expected {}", id, label, outs.len(), n))
+        }
+    };
+    match a {
+        RAst::True | RAst::False | RAst::Var(_) | RAst::Ref(_) => expect_out(0),
+        RAst::Not(b) | RAst::Quant(_, _, b) | RAst::Fix(_, _, b) => {
+            expect_out(1)?;
+            structural_match(g, labels, outs[0].1, b, seen, depth + 1)
+        }
+        RAst::Ite(c, t, e) => {
+            expect_out(3)?;
+            structural_match(g, labels, child(g, id, "If")?, c, seen, depth + 1)?;
+            structural_match(g, labels, child(g, id, "Then")?, t, seen, depth + 1)?;
+            structural_match(g, labels, child(g, id, "Else")?, e, seen, depth + 1)
+        }
+        RAst::Bin(_, l, r) => {
+            expect_out(2)?;
+            structural_match(g, labels, child(g, id, "L")?, l, seen, depth + 1)?;
+            structural_match(g, labels, child(g, id, "R")?, r, seen, depth + 1)
+        }
+        RAst::CountConst(_, l, _) => {
+            let e = indexed(g, id, "")?;
+            expect_out(e.len())?;
+            if e.len() != l.len() {
+                return Err(format!("node {} has {} operands, the term has {}", id, e.len(), l.len()));
+            }
+            for (c, t) in e.iter().zip(l.iter()) {
+                structural_match(g, labels, c, t, seen, depth + 1)?;
+            }
+            Ok(())
+        }
+        RAst::CountList(_, l, r) => {
+            let el = indexed(g, id, "L")?;
+            let er = indexed(g, id, "R")?;
+            expect_out(el.len() + er.len())?;
+            if el.len() != l.len() || er.len() != r.len() {
+                return Err(format!("node {} has {}+{} operands, the term has {}+{}", id, el.len(), er.len(), l.len(), r.len()));
+            }
+            for (c, t) in el.iter().zip(l.iter()).chain(er.iter().zip(r.iter())) {
+                structural_match(g, labels, c, t, seen, depth + 1)?;
+            }
+            Ok(())
+        }
+    }
+}
+
 pub fn check_tree_dot(dot_text: &str, reference: &RAst) -> Result<(), String> {
     let g = dot::parse(dot_text)?;
-    if g.name != "parse_tree" {
-        return Err(format!("graph is named {:?}", g.name));
-    }
     let labels = g.well_formed()?;
     let roots = g.roots();
     if roots.len() != 1 {
         return Err(format!("expected exactly one root, found {}", roots.len()));
     }
-    let term = rebuild(&g, &labels, roots[0], 0)?;
+    let term = match rebuild(&g, &labels, roots[0], 0) {
+        Ok(t) => t,
+        Err(e) if e.contains("unknown label") => {
+            // not the vocabulary of the current export: judge the tree without interpreting labels
+            let mut seen = HashMap::new();
+            structural_match(&g, &labels, roots[0], reference, &mut seen, 0)
+                .map_err(|m| format!("{} (labels are not the known vocabulary - {} - and were judged structurally)", m, e))?;
+            reference.clone()
+        }
+        Err(e) => return Err(e),
+    };
     if &term != reference {
         return Err(format!(
             "the exported parse tree reads back as `{}` but the parsed formula is `{}`",
